@@ -432,8 +432,8 @@ def agent_ids_for(grp) -> List[str]:
 _MA: Dict[Any, Any] = {}
 
 
-def ma_agent(algo: str, ids: List[str], obs_spaces, act_spaces=None, **kw):
-    key = (algo, tuple(ids), tuple(repr(s) for s in obs_spaces), repr(act_spaces), tuple(sorted(kw.items())))
+def ma_agent(algo: str, ids: List[str], obs_spaces, act_spaces=None, net_config=None, **kw):
+    key = (algo, tuple(ids), tuple(repr(s) for s in obs_spaces), repr(act_spaces), repr(net_config), tuple(sorted(kw.items())))
     if key in _MA:
         if isinstance(_MA[key], Exception):
             raise _MA[key]
@@ -451,7 +451,7 @@ def ma_agent(algo: str, ids: List[str], obs_spaces, act_spaces=None, **kw):
     try:
         with warnings.catch_warnings():
             warnings.simplefilter("ignore")
-            a = cls(list(obs_spaces), list(act_spaces), list(ids), net_config=net_config_for(obs_spaces[0]), **kw)
+            a = cls(list(obs_spaces), list(act_spaces), list(ids), net_config=(net_config or net_config_for(obs_spaces[0])), **kw)
     except Exception as ex:
         _MA[key] = ex
         AGENT_STATS["unbuildable"] += 1
@@ -878,11 +878,14 @@ def check_consequence_ma(seed: int, spaces_kind: str = "vector") -> Tuple[List[d
                       "replay": {"check": "consequence_ma", "seed": seed, "spaces_kind": spaces_kind, "ids": ids, "space": repr(sp),
                                  "obs": {a: v.tolist() for a, v in obs.items()}}})
 
-    for algo in ("maddpg", "matd3", "ippo"):
+    # "image-bn": CNN encoders built with layer_norm=True contain BatchNorm layers; the greedy action (training=False) of MADDPG / MATD3
+    # must still depend on the agent's own frame only (IPPO acts in training mode: known finding F-C15-5, not run here)
+    bn_cfg = {"encoder_config": dict(NET_CNN, layer_norm=True), "head_config": dict(HEAD)} if spaces_kind == "image-bn" else None
+    for algo in (("maddpg", "matd3") if bn_cfg else ("maddpg", "matd3", "ippo")):
         try:
             # continuous actions for the deterministic-policy algorithms (their discrete heads sample Gumbel noise)
             acts = None if algo == "ippo" else [spaces.Box(-1, 1, (2,)) for _ in ids]
-            agent = ma_agent(algo, ids, [sp] * 3, acts)
+            agent = ma_agent(algo, ids, [sp] * 3, acts, net_config=bn_cfg)
         except Exception as ex:
             raise RuntimeError(f"harness: cannot build {algo} for {spaces_kind} observations: {ex}") from ex
 
